@@ -130,7 +130,9 @@ class Meth:
 
 
 class Iface:
-    def __init__(self, name, props=None, methods=None, truthy=True, classes=(), hasattr=None, native_factory=None):
+    def __init__(self, name, props=None, methods=None, truthy=True, classes=(), hasattr=None, native_factory=None,
+                 isinstance=None):
+        self.isinstance = isinstance           # callable(ex, ref, class key or ext name) -> bool (may fork)
         self.native_factory = native_factory   # callable(name, source, log, fields) -> native stand-in (default: pyvc.native.Stub)
         self.name = name
         self.props = props or {}
@@ -169,7 +171,8 @@ class Loop:
     invariant: name of a clause function inv(k, done, xs, <vars by name>, <inputs by name>) -> bool;
     cells: {local name: Kind} mutable cells (lists / dicts) the body mutates in place."""
 
-    def __init__(self, invariant, vars=None, cells=None, decreases=None, attrs=None):
+    def __init__(self, invariant, vars=None, cells=None, decreases=None, attrs=None, step=None):
+        self.step = step or {}      # {clause name: function} checked at the end of an arbitrary iteration; `trace` = this iteration's events
         self.invariant = invariant
         self.vars = vars or {}
         self.cells = cells or {}
@@ -180,7 +183,9 @@ class Contract:
     def __init__(self, id, target, props, inputs, call=None, requires=(), ensures=None, ensures_raise=None,
                  ensures_all=None, callees=None, loops=None, canary=None, assume=(), receiver=None,
                  covers=None, note='', kwargs=None, as_property=False, bounded=None, l0=(), native_gens=None, searchable=True,
-                 clause_props=None):
+                 clause_props=None, signatures=None, native_setup=None):
+        self.signatures = signatures or {}      # {callee key: input name} declared signatures for inspect.signature
+        self.native_setup = native_setup        # callable(values, patches, source, log): extra native preparation for replays
         self.clause_props = clause_props or {}  # {clause name: [property ids]}; default: every property of the contract
         self.native_gens = native_gens or {}    # {input name: f(gen, values so far)} generators for the bounded search
         self.searchable = searchable
